@@ -36,7 +36,11 @@ LEVEL["C04"] = dict(technique=T, text="AbyScan transcribes the bitmap scan and t
 LEVEL["C02"] = dict(technique=T, text="Contract AbyDurable/AbyDb inside the trace specification: dropping every handle makes the durable image equal the ideal map, "
     "reopening (any parameters) yields it back. Histories close and reopen at random points (also right after deletes/overwrites, repeatedly), alternately "
     "in-process and in a freshly spawned process, with reopen parameters drawn independently of the creation parameters; after each reopen len, get of every "
-    "table key, a full iteration and the independently decoded image are compared by TLC with the contract state (C02.content, C05.content).", note=TRUST)
+    "table key, a full iteration and the independently decoded image are compared by TLC with the contract state (C02.content, C05.content). Design under "
+    "the contract (AbyReg): the session end DropAll flushes every buffered instance (rabuf Drop, AbyBuf.Drop) and the next open reads the files; CloseDurable "
+    "(what every handle observed at the end of the session is what the files hold) and OpenReadsDisk are model-checked, TLC must violate CloseDurable when a getter "
+    "creates a second instance (MCReg_close_w), and for every number of names/types/handles CloseDurable is PROVED from the inductive invariant "
+    "(one instance per name; a clean instance holds what its files hold) with TLAPS (spec/proofs/AbyRegProofs.tla, 288 obligations).", note=TRUST + " TLAPS 1.6 (SMT back end).")
 LEVEL["C03"] = dict(technique=T, text="Durability contract in the trace specification: after flush/sync_data/sync_all = ok (map or database level) and before the next update "
     "the disk image is known to equal the ideal map. Every such call in the generated histories is a crash point: the directory is copied with all handles "
     "alive and opened in another process (C03.snapshot), in a third of the histories the writer is SIGKILLed right after a database sync and the directory "
